@@ -1,2 +1,185 @@
-/- C08 correspondence driver (stub: replaced when the property's model is built) -/
-def main : IO Unit := IO.println "stub"
+import PnVerif.Model.World
+/-
+  C08 correspondence driver.  One case per line on stdin (the line the C harness harness/c08_coll.c
+  executes, see there), one answer per line on stdout:
+
+    CASE <id> <api> <fix|rec> safe= hcoll= aggr= indep= nr= [x=..] [lay=..] [rp=zfm] | <in rank0> | <in rank1> ...
+      ->  <id> ret=<code> tr=<tok,..|-> trig=<0|1> | ... (one group per rank) || M completed
+                                                                                 || M stuck <entered rank0> <entered rank1> ...
+
+  `entered` = number of collectives the rank has entered when nobody can move any more.
+  The translation of the harness's concrete inputs (rows, request counts) into the model's RankInput is
+  done here and is part of the trusted glue.
+-/
+open PnVerif.World
+
+def tokName : CollTok → String
+  | .allreduce => "allreduce" | .bcast => "bcast" | .barrier => "barrier" | .gather => "gather"
+  | .commDup => "commDup" | .commFree => "commFree" | .fileOpen => "fileOpen" | .fileClose => "fileClose"
+  | .fileSync => "fileSync" | .setView => "setView" | .writeAll => "writeAll" | .readAll => "readAll"
+
+def showTrace (t : Trace) : String :=
+  if t.isEmpty then "-" else String.intercalate "," (t.map tokName)
+
+def words (s : String) : List String := (s.splitOn " ").filter (· ≠ "")
+
+def kvOf (ws : List String) (key : String) : Option String :=
+  ws.findSome? fun w => if w.startsWith (key ++ "=") then some ((w.drop (key.length + 1)).toString) else none
+
+def kvNat (ws : List String) (key : String) (d : Nat) : Nat :=
+  match kvOf ws key with
+  | some v => v.toNat?.getD d
+  | none => d
+
+def argErrOf : String → Option ArgErr
+  | "coords" => some .einvalcoords | "coordsrec" => some .einvalcoords | "edge" => some .eedge
+  | "stride" => some .estride | "negcnt" => some .enegativecnt | "notvar" => some .enotvar
+  | "global" => some .eglobal | "echar" => some .echar | "einval" => some .einval
+  | "nullstart" => some .enullstart | _ => none
+
+def natOr (s : Option String) (d : Nat) : Nat := (s.bind String.toNat?).getD d
+
+/-- per-rank input of the harness -> RankInput -/
+def parseIn (api : String) (isRec : Bool) (nr0 : Nat) (rank : Nat) (ws : List String) : Option RankInput :=
+  let form := (api.drop 4).toString
+  let a1 := ws[1]?
+  let a2 := ws[2]?
+  match ws.head? with
+  | some "V" =>
+      let row := natOr a1 0
+      if api == "fill_var_rec" then some { fillCls := .ok, varid := 0, recno := row }
+      else if form == "var" then some { cls := .valid, recEnd := nr0 }
+      else some { cls := .valid, recEnd := row + 1 }
+  | some "Z" => some { cls := .zeroLen, recEnd := if form == "vard" then 1 else 0 }
+  | some "E" =>
+      let k := a1.getD ""
+      if api == "fill_var_rec" then
+        (if k == "notrec" then some { fillCls := .notRec, varid := 2 }
+         else if k == "notfill" then some { fillCls := .notFill, varid := 1 } else none)
+      else if api == "create" || api == "open" then some { metaArg := 1 }
+      else if api == "enddef_" then
+        (if k == "einval" then some { metaErr := 36 } else if k == "multi" then some { metaArg := 1 } else none)
+      else if api == "rename_var" then
+        (if k == "badname" then some { metaErr := 59 } else if k == "multi" then some { metaArg := 1 } else none)
+      else (argErrOf k).map fun e => { cls := .argErr e }
+  | some "D" =>
+      let k := a1.getD ""
+      let row := natOr a2 0
+      if k == "iomis" then some { cls := .drvErr .eiomismatch, recEnd := if form == "vard" then row + 1 else 0 }
+      else if k == "etype" then some { cls := .drvErr .etypeMismatch, recEnd := if form == "vard" then row + 1 else 0 }
+      else none
+  | some "P" =>
+      let np := natOr a1 0
+      let ng := natOr a2 0
+      let how := (ws[3]?).getD "all"
+      some { nPut := np, nGet := ng, maxRec := if isRec && np > 0 then nr0 + rank * 4 + np else 0,
+             waitErr := how == "bad" }
+  | some "I" => some {}
+  | some "-" => some {}
+  | _ => none
+
+def parseFix (s : String) : List FixVar :=
+  (s.splitOn ";").filterMap fun e =>
+    match e.splitOn "-" with
+    | [a, b, c] => match a.toNat?, b.toNat?, c.toNat? with
+      | some a, some b, some c => some { oldBegin := a, newBegin := b, len := c }
+      | _, _, _ => none
+    | _ => none
+
+/-- lay=np:obv:nbv:obr:nbr:ors:nrs:nr:nvars:fill:isRedef:ob-nb-len;ob-nb-len -/
+def parseLayout (s : String) : Layout :=
+  let p := s.splitOn ":"
+  let n (i : Nat) : Nat := natOr p[i]? 0
+  { nprocs := n 0, oldBeginVar := n 1, newBeginVar := n 2, oldBeginRec := n 3, newBeginRec := n 4,
+    oldRecsize := n 5, newRecsize := n 6, numrecs := n 7, nvars := n 8, fillNew := n 9 == 1,
+    isRedef := n 10 == 1, fixVars := parseFix ((p[11]?).getD "") }
+
+def parseApi (api : String) (isRec : Bool) (L : Layout) : Option Api :=
+  let vk : VarKind := if isRec then .record else .fixed
+  let gp (d : Dir) (form : String) : Option Api :=
+    if form == "var" || form == "var1" || form == "vara" || form == "vars" || form == "varm" then some (.getput .var d vk)
+    else if form == "varn" || form == "mvara" then some (.getput .nb d vk)
+    else if form == "vard" then some (.getput .vard d vk)
+    else none
+  if api.startsWith "put_" then gp .put (api.drop 4).toString
+  else if api.startsWith "get_" then gp .get (api.drop 4).toString
+  else match api with
+    | "wait_all" => some .waitAll
+    | "fill_var_rec" => some .fillVarRec
+    | "sync" => some .sync
+    | "sync_numrecs" => some .syncNumrecs
+    | "begin_indep" => some .beginIndep
+    | "end_indep" => some .endIndep
+    | "redef" => some .redef
+    | "enddef" => some (.enddef L false)
+    | "enddef_" => some (.enddef L true)
+    | "close" => some (.close L)
+    | "close_def" => some (.close L)
+    | "create" => some .create
+    | "open" => some (.openFile 1)
+    | "rename_var" => some .renameVar
+    | _ => none
+
+/-- length of the longest common prefix along which all ranks move together -/
+def commonSteps : Nat → List Trace → Nat
+  | 0, _ => 0
+  | fuel + 1, w =>
+    match w with
+    | [] => 0
+    | t0 :: _ =>
+      match t0.head? with
+      | none => 0
+      | some c => if w.all (fun t => t.head? == some c) then 1 + commonSteps fuel (w.map List.tail) else 0
+
+def matchReport (w : List Trace) : String :=
+  let fuel := (w.map List.length).foldl max 0
+  let k := commonSteps fuel w
+  if w.all (fun t => t.length == k) then "M completed"
+  else "M stuck " ++ String.intercalate " " (w.map fun t => toString (min t.length (k + 1)))
+
+def doCase (line : String) : String :=
+  match line.splitOn "|" with
+  | [] => "bad-line"
+  | hdr :: ins =>
+    let ws := words hdr
+    match ws with
+    | "CASE" :: id :: api :: vk :: _ =>
+      let isRec := vk == "rec"
+      let nr0 := kvNat ws "nr" 0
+      let rpS := (kvOf ws "rp").getD "000"
+      let rpc := rpS.toList
+      let rp : Repairs := { zeroPathNumrecs := rpc[0]? == some '1', fillVarRecErr := rpc[1]? == some '1',
+                            metaErrJoins := rpc[2]? == some '1' }
+      let L := parseLayout ((kvOf ws "lay").getD "")
+      let cfg : Cfg := { safe := kvNat ws "safe" 0 == 1, hcoll := kvNat ws "hcoll" 0 == 1, aggr := kvNat ws "aggr" 0 == 1,
+                         indep := kvNat ws "indep" 0 == 1 || api == "end_indep", indef := api == "close_def",
+                         numrecs := nr0 }
+      match parseApi api isRec L with
+      | none => id ++ " bad-api"
+      | some a =>
+        let rec go (i : Nat) (l : List String) : Option (List RankInput) :=
+          match l with
+          | [] => some []
+          | s :: rest => do
+            let x ← parseIn api isRec nr0 i (words s)
+            let xs ← go (i + 1) rest
+            pure (x :: xs)
+        match go 0 ins with
+        | none => id ++ " bad-input"
+        | some world =>
+          let traces := world.map (localTrace rp a cfg world)
+          let groups := world.map fun x =>
+            s!"ret={localRet a cfg world x} tr={showTrace (localTrace rp a cfg world x)} trig={if decide (Trigger rp a cfg x) then 1 else 0}"
+          id ++ " " ++ String.intercalate " | " groups ++ " || " ++ matchReport traces
+    | _ => "bad-line"
+
+partial def loop (h : IO.FS.Stream) (out : IO.FS.Stream) : IO Unit := do
+  let line ← h.getLine
+  if line.isEmpty then return ()
+  let l := line.trimAscii.toString
+  if l.startsWith "CASE" then out.putStrLn (doCase l)
+  loop h out
+
+def main : IO Unit := do
+  let out ← IO.getStdout
+  loop (← IO.getStdin) out
